@@ -15,12 +15,18 @@ open Jomini Jomini.BinDe
 /-- Both meanings are the SAME container traversal `valueOfG` (struct / map / sequence / option /
 unknown-field skipping, fields in document order, duplicates kept in order and reported as the
 same `duplicate` error, missing fields as the same `missing` error); they differ only in the
-meaning of a leaf, a key and a colour (`Sem`).  So the property reduces to leaf agreement. -/
+meaning of a leaf, a key and a colour (`Sem`).  So the property reduces to leaf agreement.
+(This theorem is true BY DEFINITION - its proof is `⟨rfl, rfl⟩`: it records the design decision that both references are
+instances of one traversal; the content is in the leaf theorems below, in `C10_nested_spec` - which needs the leaf
+agreement only on the (leaf, request) pairs the traversal meets - and in the byte-level theorems that tie the text
+reference to the text slice's parser and deserializer models.) -/
 theorem C10_same_traversal (c : Cfg) (ty : RootTy) (d : BDoc) :
     valueOfText c ty d = valueOfG (textSem c) ty d ∧ valueOfBin c ty d = valueOfG (binSem c) ty d :=
   ⟨rfl, rfl⟩
 
-/-- if the two formats agree on every leaf, key and colour, they agree on every document and type. -/
+/-- if the two formats agree on every leaf, key and colour, they agree on every document and type.  (A plain CONGRUENCE:
+equal `Sem`s give equal traversals.  It is never applicable to the real formats as a whole - they do differ on untyped
+and float leaves; the usable form is `C10_nested_spec`, pointwise on the pairs met.) -/
 theorem C10_leaf_agreement_suffices (S1 S2 : Sem) (hl : S1.leaf = S2.leaf) (hc : S1.color = S2.color)
     (hk : S1.key = S2.key) (ty : RootTy) (d : BDoc) : valueOfG S1 ty d = valueOfG S2 ty d := by
   cases S1; cases S2; simp_all
@@ -43,15 +49,14 @@ theorem C10_uint_leaf (c : Cfg) (n : Nat) (h : n ≤ Scalar.U64_MAX) :
 
 example : (18446744073709551615 : Nat) ≤ Scalar.U64_MAX := by decide
 
-/-- signed integer leaves: the I64 (or I32) token and its decimal text are the same value for an
-`i64` request: `to_i64 (fmtInt n) = n`.  Stated for |n| ≤ 2^63-1: the present scalar model refuses
-the magnitude 2^63 (i64::MIN) before applying the sign; once the repaired `to_i64` (repo 8327848)
-is in Model/Scalar.lean the range becomes -2^63..2^63-1. -/
-theorem C10_int_leaf (c : Cfg) (n : Int) (h : n.natAbs ≤ Scalar.I64_MAX) :
+/-- signed integer leaves: the I64 (or I32) token and its decimal text are the same value for an `i64` request,
+for EVERY i64 (`i64::MIN` included: `to_i64 (fmtInt n) = n`, `toI64_fmtInt`; the repaired `to_i64` of /repo 8327848 is
+what `Model/Scalar.lean` models). -/
+theorem C10_int_leaf (c : Cfg) (n : Int) (h : inI64 n = true) :
     textLeaf c .i64 (.i64 n) = valLeaf c .i64 (.i64 n) ∧ textLeaf c .i64 (.i32 n) = valLeaf c .i64 (.i32 n) := by
-  simp [textLeaf, leafText, textScalarVal, valLeaf, u16Leaf, leafPrim, toI64_fmtInt n h, visitPrim, Prim.asInt]
+  simp [textLeaf, leafText, textScalarVal, valLeaf, u16Leaf, leafPrim, toI64_fmtInt' n h, visitPrim, Prim.asInt]
 
-example : (-9223372036854775807 : Int).natAbs ≤ Scalar.I64_MAX := by decide
+example : inI64 (-9223372036854775808) = true ∧ inI64 9223372036854775807 = true ∧ inI64 9223372036854775808 = false := by decide
 
 /-- a string leaf means the same in both formats (the same Windows-1252 decoding of the same bytes),
 quoted or not. -/
@@ -157,5 +162,9 @@ theorem C10_text_references_agree_nested : type_of% @BinDe.valueOfText_bridge_ne
 /-- C10 capstone at BYTE level for NESTED documents: both text deserializer models on the rendered text bytes and the three
 binary deserializer models on the encoded binary bytes have the outcome `valueOfBin` of the one logical document. -/
 theorem C10_bytes_end_to_end_nested : type_of% @BinDe.C10_bytes_end_to_end_nested := @BinDe.C10_bytes_end_to_end_nested
+
+/-- C10 at BYTE level for EVERY valid text layout of the logical document (blanks, line ends, comments free): the
+canonical rendering of `C10_bytes_end_to_end_nested` is one instance (`BinDe.gDoc_textFs`, `BinDe.valid_fs`). -/
+theorem C10_bytes_end_to_end_any_layout : type_of% @BinDe.C10_bytes_end_to_end_any_layout := @BinDe.C10_bytes_end_to_end_any_layout
 
 end Jomini.Props.C10
